@@ -106,11 +106,11 @@ func bubbleGoroutines() string {
 			continue
 		}
 		lines := strings.Split(g, "\n")
-		if len(lines) > 9 {
-			lines = lines[:9]
+		if len(lines) > 15 {
+			lines = lines[:15]
 		}
 		out = append(out, strings.Join(lines, "\n"))
-		if len(out) >= 12 {
+		if len(out) >= 40 {
 			break
 		}
 	}
